@@ -1076,6 +1076,34 @@ fn measure_all(fam: &KeyFamily, k: u32, fsts_bytes: &[Vec<u8>]) -> Vec<OpMeasure
             n
         }));
     }
+    // enumeration through the formatting traits (Debug of a Map / Set walks
+    // a stream), compact and pretty, into a writer that discards
+    {
+        use std::fmt::Write;
+        // (a writer of our own: std's io::Sink does not format at all)
+        struct Discard(u64);
+        impl std::fmt::Write for Discard {
+            fn write_str(&mut self, s: &str) -> std::fmt::Result {
+                self.0 += s.len() as u64;
+                Ok(())
+            }
+        }
+        out.push(measure("debug_fmt.map", || {
+            let mut d = Discard(0);
+            let _ = write!(d, "{:?}", m0);
+            d.0
+        }));
+        out.push(measure("debug_fmt_alternate.map", || {
+            let mut d = Discard(0);
+            let _ = write!(d, "{:#?}", m0);
+            d.0
+        }));
+        out.push(measure("debug_fmt_alternate.set", || {
+            let mut d = Discard(0);
+            let _ = write!(d, "{:#?}", sets[0]);
+            d.0
+        }));
+    }
     // more than 2^20 point look-ups on ONE opened object of each kind
     out.push(measure("open+get.over_2pow20_lookups_per_object", || {
         let f = fst::raw::Fst::new(&main[..]).expect("harness: open");
